@@ -683,7 +683,8 @@ class C03(Prop):
                 "C03_copy_name_labels, C03_name_text, C03_skip_name_agrees, C03_walk_including_opt_total); the OPT-skipping walk visits exactly "
                 "the non-OPT records of that reading with the same views (every record in the answer and authority sections) and its debug "
                 "assertions cannot fire; the question cursor yields the declaratively decoded question once (C03_walks, "
-                "C03_question_cursor). PARTIAL: the EDNS option cursor is decided each run by the correspondence and the oracle.")
+                "C03_question_cursor); the EDNS option cursor yields exactly the options that tile the OPT data, as many as the object's "
+                "option count (C03_option_cursor). Everything else of the property is the correspondence of model and code.")
     assumptions = ["bytes < 256"]
 
     def gen(self, rng, tier):
@@ -751,8 +752,10 @@ class C04(Prop):
                 "(C04_flags_word, C04_dnssec_bits); for every accepted packet the four question getters, with the cache empty and filled, "
                 "return the labels the declarative name policy reads at offset 12 (wire form, wire form without root, lower-cased dotted "
                 "text) with the following two 16-bit words as type and class, and that decoding is unique (C04_question_getters, "
-                "C04_question_decoding_unique). PARTIAL: id / opcode / rcode / EDNS summary fields are single reads of the bytes in the "
-                "model; their equality with the implementation rests on the correspondence and the reference-decoder oracle.")
+                "C04_question_decoding_unique); the EDNS summary the parser stores is the start of the OPT data, the number of options tiling "
+                "it, payload size, extended rcode, version and flags read from the OPT record, or nothing and 512 without OPT "
+                "(C04_edns_summary). PARTIAL: id / opcode / rcode are single reads of header bytes in the model; equality with the "
+                "implementation rests on the correspondence and the reference-decoder oracle.")
     assumptions = ["bytes < 256"]
 
     def one(self, rng, i, b, fam):
